@@ -192,7 +192,11 @@ def run(ctx):
         # ... and every stop point inside the server's own tear-down of the connection (variant 2: the last calls of its
         # script -- unlink of each ring's data and header file, close, rmdir), empty queues
         tear = [("S", t, 2, 0, n) for t in (0, 1) for n in range(max(1, totals[("S", t, 2, 0)] - 45), totals[("S", t, 2, 0)] + 2)]
-        scs = [s for i, s in enumerate(scs) if i in keep] + tear + \
+        # ... and every stop point of the two short client operations that make the server answer (sendv_recv, event_recv),
+        # both transports, queues empty, the server running only after the death (fresh / stale): its first response or
+        # event on that connection then goes to a peer that is gone
+        small = [("C", t, op, 0, m, n) for t in (0, 1) for op in (2, 3) for m in (0, 1) for n in range(1, totals[("C", t, op, 0)] + 2)]
+        scs = [s for i, s in enumerate(scs) if i in keep] + tear + small + \
               [("R", 0, HANDSHAKE, 3), ("R", 1, HANDSHAKE, 3), ("C", 0, 0, 0, 2, 12), ("C", 1, 0, 0, 1, 20)]
         scs = list(dict.fromkeys(scs))
     ctx.log("%d scenarios to run (enumeration space %d)" % (len(scs), space))
